@@ -1,5 +1,7 @@
-// Package psenv provides a pair of connected libp2p hosts on one gossipsub topic (loopback only): H1 carries the
-// code under test (and a probe subscription of the harness, which keeps H1 subscribed), H2 is the remote peer.
+// Package psenv provides connected libp2p hosts on one gossipsub topic (loopback only): H1 carries the code under test (and
+// a probe subscription of the harness, which keeps H1 subscribed), H2 is the remote peer, and H3 -- connected to H2 only --
+// is a publisher whose messages reach H1 over two hops (H2 forwards them): their author and the peer they arrive from differ.
+// H3 is nil when the two-hop path could not be established in time (the callers then publish from H2 only).
 package psenv
 
 import (
@@ -16,8 +18,8 @@ import (
 )
 
 type Env struct {
-	H1, H2 host.Host
-	T1, T2 *pubsub.Topic
+	H1, H2, H3 host.Host
+	T1, T2, T3 *pubsub.Topic
 	Probe  *pubsub.Subscription // on T1
 	cancel context.CancelFunc
 }
@@ -65,6 +67,56 @@ func Get() (*Env, error) {
 				return
 			}
 			time.Sleep(2 * time.Millisecond)
+		}
+		// the second hop: H2 subscribes (only subscribers forward), H3 knows H2 alone
+		if sub2, err := e.T2.Subscribe(); err == nil {
+			go func() {
+				for {
+					if _, err := sub2.Next(ctx); err != nil {
+						return
+					}
+				}
+			}()
+			if h3, t3, err := mk(); err == nil {
+				if h3.Connect(ctx, peer.AddrInfo{ID: e.H2.ID(), Addrs: e.H2.Addrs()}) == nil {
+					// a test message from H3 must come out of H1's probe subscription, forwarded by H2
+					ok := false
+					for try := 0; try < 40 && !ok; try++ {
+						if len(t3.ListPeers()) > 0 && t3.Publish(ctx, []byte("psenv-two-hop-test")) == nil {
+							pctx, pc := context.WithTimeout(ctx, 150*time.Millisecond)
+							for {
+								m, err := e.Probe.Next(pctx)
+								if err != nil {
+									break
+								}
+								if string(m.Data) == "psenv-two-hop-test" && m.ReceivedFrom == e.H2.ID() && m.GetFrom() == h3.ID() {
+									ok = true
+									break
+								}
+							}
+							pc()
+						} else {
+							time.Sleep(50 * time.Millisecond)
+						}
+					}
+					// drain the remaining test messages
+					for {
+						pctx, pc := context.WithTimeout(ctx, 200*time.Millisecond)
+						_, err := e.Probe.Next(pctx)
+						pc()
+						if err != nil {
+							break
+						}
+					}
+					if ok {
+						e.H3, e.T3 = h3, t3
+					} else {
+						h3.Close()
+					}
+				} else {
+					h3.Close()
+				}
+			}
 		}
 		inst = e
 	})
